@@ -517,6 +517,44 @@ class FactMap:
         return None
 
 
+def expand_defs(txt, facts, depth=0):
+    """expression text with every name that has a ('def', name, e) fact replaced by its definition (to depth 3)."""
+    import copy
+    defs = {a[1]: a[2] for a in facts if a[0] == 'def' and isinstance(a[1], str) and a[1].isidentifier()}
+    if not defs or depth > 3:
+        return txt
+    try:
+        tree = ast.parse(txt, mode='eval')
+    except SyntaxError:
+        return txt
+    changed = [False]
+
+    class S(ast.NodeTransformer):
+        def visit_Name(self, n):
+            if isinstance(n.ctx, ast.Load) and n.id in defs and defs[n.id] != n.id:
+                try:
+                    changed[0] = True
+                    return ast.parse(defs[n.id], mode='eval').body
+                except SyntaxError:
+                    return n
+            return n
+    new = S().visit(tree)
+    out = ast.unparse(new)
+    return expand_defs(out, facts, depth + 1) if changed[0] else out
+
+
+def holds(facts, op, left, right):
+    """(op, left, right) is a fact, modulo the definitions of single-assignment locals on this path."""
+    if (op, left, right) in facts:
+        return True
+    L, R = expand_defs(left, facts), expand_defs(right, facts)
+    for a in facts:
+        if len(a) == 3 and a[0] == op and isinstance(a[1], str) and isinstance(a[2], str):
+            if expand_defs(a[1], facts) == L and expand_defs(a[2], facts) == R:
+                return True
+    return False
+
+
 def happened_before(fm, first_call, node):
     """on every path reaching ``node`` the call ``first_call`` (an ast.Call of the same function) completed."""
     f = fm.facts_at(node)
